@@ -292,8 +292,12 @@ class Output:
         noutput = m.int("noutput", lo=1, hi=(None if m.symbolic else 50))
         key_size = m.int("key_size", lo=0, hi=(None if m.symbolic else 400))
         fcfg = dict(cfg, noutput=noutput, key_size=key_size)
+        # cfg["ghost_window"] = [start, count, fill]: with ghosts='symbolic' only the slots start..start+count-1 of each file
+        # (numbered in (domain, level) order) stay free; the others hold exactly `fill` foreign grids (bounds the 2^slots patterns)
+        win = cfg.get("ghost_window")
         for icpu in range(ncpu):
             octs = {}
+            slot = 0
             for dom in range(ncpu + nb):
                 octs[dom] = []
                 for l in range(L):
@@ -305,6 +309,9 @@ class Output:
                             m.assume(m.eq(g, 0))
                         elif ghosts == "positive":
                             m.assume(m.gt(g, 0))
+                        elif win is not None and not (win[0] <= slot < win[0] + win[1]):
+                            m.assume(m.eq(g, win[2]))
+                        slot += 1
                         octs[dom].append(g)
             recs = {"amr": RL.amr_records(fcfg, octs, self.F)}
             for kind, names in self.kinds.items():
